@@ -44,6 +44,13 @@ type Sched struct {
 	active   bool
 	Log      []string
 	Switches int
+
+	// BatchQueued, when set, tells whether a batch of evicted entries is waiting
+	// for the remover goroutine. Together with the remover's own yield points
+	// (before each unlink, after each batch) it makes "the remover has work" an
+	// exact fact instead of a matter of timing, so that schedules replay.
+	BatchQueued func() bool
+	evInBatch   bool // the remover is between "evict.unlink" of some entry and "evict.batchdone"
 }
 
 func New() *Sched {
@@ -94,7 +101,14 @@ func (s *Sched) Yield(point string) {
 				s.evictor = &Task{Name: "remover", resume: make(chan struct{})}
 			}
 			t = s.evictor
+			s.evInBatch = true
 		} else {
+			if point == "evict.batchdone" {
+				s.evInBatch = false
+				s.mu.Unlock()
+				s.ping()
+				return
+			}
 			s.mu.Unlock()
 			return
 		}
@@ -142,6 +156,14 @@ func (s *Sched) Run(choose func(parked []*Task) int, backlog func() int64) error
 			}
 		}
 		runningBusy := running != nil && !running.Done && !running.parked
+		var starting *Task
+		for _, t := range s.tasks {
+			// a task whose goroutine has not reached its first park yet: the set of
+			// choices must not depend on how fast goroutines start
+			if t != running && !t.Done && !t.parked {
+				runningBusy, starting = true, t
+			}
+		}
 		evParked := s.evictor != nil && s.evictor.parked
 		s.mu.Unlock()
 		if alldone {
@@ -149,7 +171,11 @@ func (s *Sched) Run(choose func(parked []*Task) int, backlog func() int64) error
 		}
 		if runningBusy {
 			if time.Now().After(deadline) {
-				return fmt.Errorf("task %q neither parked nor finished within 30s (last yield %q)", running.Name, running.ParkedAt)
+				who := running
+				if who == nil || who.Done || who.parked {
+					who = starting
+				}
+				return fmt.Errorf("task %q neither parked nor finished within 30s (last yield %q)", who.Name, who.ParkedAt)
 			}
 			select {
 			case <-s.notify:
@@ -157,8 +183,23 @@ func (s *Sched) Run(choose func(parked []*Task) int, backlog func() int64) error
 			}
 			continue
 		}
-		// give the remover a moment to reach its yield point when there is a backlog
-		if backlog != nil && backlog() > 0 && !evParked {
+		if s.BatchQueued != nil {
+			// exact: the remover has work iff it is inside a batch or a batch is queued
+			s.mu.Lock()
+			inBatch := s.evInBatch
+			s.mu.Unlock()
+			if !evParked && (inBatch || s.BatchQueued()) {
+				// it is on its way to its next yield point (or to the end of the batch)
+				if time.Now().After(deadline) {
+					return fmt.Errorf("the remover has work but did not reach a yield point within 30s")
+				}
+				select {
+				case <-s.notify:
+				case <-time.After(time.Millisecond):
+				}
+				continue
+			}
+		} else if backlog != nil && backlog() > 0 && !evParked {
 			w := time.Now().Add(100 * time.Millisecond)
 			for time.Now().Before(w) && backlog() > 0 {
 				s.mu.Lock()
@@ -170,7 +211,7 @@ func (s *Sched) Run(choose func(parked []*Task) int, backlog func() int64) error
 				time.Sleep(200 * time.Microsecond)
 			}
 		}
-		if evParked && backlog != nil && backlog() == 0 {
+		if s.BatchQueued == nil && evParked && backlog != nil && backlog() == 0 {
 			// Unlinks of zero-length files are invisible in the byte-counting
 			// backlog, so whether the remover shows up here would depend on
 			// timing: let it through without making it a schedule choice.
@@ -205,8 +246,13 @@ func (s *Sched) Run(choose func(parked []*Task) int, backlog func() int64) error
 		s.mu.Unlock()
 		if t == s.evictor {
 			t.resume <- struct{}{}
-			// the remover performs one unlink and parks again (or goes idle): do not wait for it as "running"
-			time.Sleep(300 * time.Microsecond)
+			// the remover performs one unlink and parks again (or goes idle): it is
+			// not "running" in the sense of the loop above; with BatchQueued set the
+			// next round waits exactly until it has parked or finished its batch
+			if s.BatchQueued == nil {
+				time.Sleep(300 * time.Microsecond)
+			}
+			deadline = time.Now().Add(30 * time.Second)
 			continue
 		}
 		running = t
